@@ -625,10 +625,29 @@ fn render_outcome(o: &Result<Answer, String>) -> String {
     }
 }
 
+/// `expect("query was not returned")`: the carrier discipline itself broke (`carrier_safe` says never).
+fn is_carrier_panic(key: &str) -> bool {
+    key.contains("query_was_not_returned")
+}
+
+fn atomise(key: &str) -> String {
+    key.replace([' ', '(', ')'], "_")
+}
+
+/// `(carrier-panic unbatched|<schedule> <panic class>)`
+fn carrier_panic(s: Option<&Sched>, key: &str) -> String {
+    format!("(carrier-panic {} {})", s.map(|s| s.to_sexp().to_string()).unwrap_or_else(|| "unbatched".to_string()), atomise(key))
+}
+
 fn mismatch(s: &Sched, got: &Result<Answer, String>) -> String {
+    if let Err(key) = got {
+        if is_carrier_panic(key) {
+            return carrier_panic(Some(s), key);
+        }
+    }
     let got = match got {
         Ok(a) => a.render(),
-        Err(key) => format!("(panic {})", key.replace([' ', '(', ')'], "_")),
+        Err(key) => format!("(panic {})", atomise(key)),
     };
     format!("(batch-mismatch {} (got {got}))", s.to_sexp())
 }
@@ -659,6 +678,11 @@ fn eval_batch_exec(args: &[Sexp]) -> Option<String> {
     // a result of thousands of rows (nested recursions over a dense self-edge) is run under the first
     // few schedules only; the cut depends on the unbatched result alone, so the answer stays a
     // function of the request
+    if let Err(key) = &base {
+        if is_carrier_panic(key) {
+            return Some(carrier_panic(None, key));
+        }
+    }
     let heavy = matches!(&base, Ok(Answer::Rows(rows)) if rows.len() > HEAVY_ROWS);
     let scheds = if heavy { &scheds[..scheds.len().min(HEAVY_SCHEDULES)] } else { &scheds[..] };
     for s in scheds {
@@ -765,6 +789,11 @@ fn eval_batch_numbers(args: &[Sexp]) -> Option<String> {
     let numbers = NUMBERS.with(|n| n.clone());
     // the unbatched run: the shared adapter as it is
     let base = guarded(|| run_numbers(Passthrough(numbers.clone()), &q, &t.arguments)).map_err(|i| panic_key(&i));
+    if let Err(key) = &base {
+        if is_carrier_panic(key) {
+            return Some(carrier_panic(None, key));
+        }
+    }
     for s in &scheds {
         BATCHED_RUNS.with(|c| c.set(c.get() + 1));
         let got = guarded(|| run_numbers(BatchingAdapter::new(numbers.clone(), s.clone()), &q, &t.arguments))
@@ -934,7 +963,7 @@ impl Prop for C02 {
         "C02"
     }
     fn rule(&self) -> &'static str {
-        "(batch-exec ...): the worlds of C01 (same generator, same seed; quick 40 schemas, thorough 120: schemas x 2 datasets x ~10 accepted type-directed queries with plain/optional/fold/nested-fold/recurse edges, coercions, filters with variable/tag/imported-tag/fold-count operands, count outputs and filters); every (dataset, query) is run unbatched over the lazy table adapter and then under every schedule of the request: the 24 fixed ones (wrapper default = every resolver call pre-fetches one element; the [0,0,MAX] schedule of repro_issue_205; chunks of 4; chunks 1,2,3,4,...; pre-fetch EVERYTHING before the first output on the output side / the input side / both; lazy-then-everything; and the #205 shape 'all calls minimal, the i-th call pre-fetches everything' for i < 12) plus seeded random ones (0..24 per-call entries, each re-batching input, output or both with a random u64 digit sequence, 0, MAX, or explicit chunk sizes 0..4 then everything; exhausted schedules continue with 0 or cyclically) - quick 24+24, thorough 24+1976 per query. The answer is the unbatched rows when all schedules agree, (batch-mismatch <schedule> ...) otherwise; the Lean side answers the rows of the list-level interpreter, which does not look at the schedule. (batch-numbers ...): the same for the repo's own valid numbers test queries over the repo's NumbersAdapter. (plan ...)/(plan-numbers ...): the ownership plan (bracket sites, closures) derived in Rust from the real IRQuery must equal the Lean planOf of the rendered IR, and the real engine's adapter-call log over the lazy adapter must conform to it (calls before the first pull = root pipeline; every later burst of calls = body of one fold closure). (chunk ...): batch sizes of the chunk iterator vs the Lean chunk. A case is non-trivial (nt:) when the query has a fold (a pull-time closure exists) and the unbatched run returned rows, or for plan requests when at least one closure burst was observed. Oracle: any (batch-mismatch ...) answer - rows differ or a panic appears/disappears under some schedule."
+        "(batch-exec ...): the worlds of C01 (same generator, same seed; quick 40 schemas, thorough 120: schemas x 2 datasets x ~10 accepted type-directed queries with plain/optional/fold/nested-fold/recurse edges, coercions, filters with variable/tag/imported-tag/fold-count operands, count outputs and filters); every (dataset, query) is run unbatched over the lazy table adapter and then under every schedule of the request: the 24 fixed ones (wrapper default = every resolver call pre-fetches one element; the [0,0,MAX] schedule of repro_issue_205; chunks of 4; chunks 1,2,3,4,...; pre-fetch EVERYTHING before the first output on the output side / the input side / both; lazy-then-everything; and the #205 shape 'all calls minimal, the i-th call pre-fetches everything' for i < 12) plus seeded random ones (0..24 per-call entries, each re-batching input, output or both with a random u64 digit sequence, 0, MAX, or explicit chunk sizes 0..4 then everything; exhausted schedules continue with 0 or cyclically) - quick 24+24, thorough 24+1976 per query. The answer is the unbatched rows when all schedules agree, (batch-mismatch <schedule> ...) otherwise; the Lean side answers the rows of the list-level interpreter, which does not look at the schedule. (batch-numbers ...): the same for the repo's own valid numbers test queries over the repo's NumbersAdapter. (plan ...)/(plan-numbers ...): the ownership plan (bracket sites, closures) derived in Rust from the real IRQuery must equal the Lean planOf of the rendered IR, and the real engine's adapter-call log over the lazy adapter must conform to it (calls before the first pull = root pipeline; every later burst of calls = body of one fold closure). (chunk ...): batch sizes of the chunk iterator vs the Lean chunk. A case is non-trivial (nt:) when the query has a fold (a pull-time closure exists) and the unbatched run returned rows, or for plan requests when at least one closure burst was observed. Oracle: any (batch-mismatch ...) answer - rows differ or a panic appears/disappears under some schedule - and any (carrier-panic ...) answer: a run, batched or not, died with expect(\"query was not returned\")."
     }
     fn generate(&self, tier: Tier, rng: &mut Rng) -> Vec<Case> {
         let n_rand = if tier == Tier::Quick { 24 } else { 1976 };
@@ -1034,28 +1063,37 @@ impl Prop for C02 {
     fn oracle(&self, evaluated: &[Evaluated]) -> Vec<OracleFailure> {
         let mut out = vec![];
         for e in evaluated {
-            if !e.answer.starts_with("(batch-mismatch") {
-                continue;
-            }
             let Some(ans) = Sexp::parse(&e.answer) else { continue };
-            let Some(("batch-mismatch", [sched, got])) = ans.as_call() else { continue };
-            let got = got.to_string();
-            let key = if got.starts_with("(got (panic") {
-                format!("panic-under-batching:{}", got.trim_start_matches("(got (panic ").trim_end_matches("))"))
-            } else {
-                "rows-differ-under-batching".to_string()
+            // (key, failing schedule if any, what was observed)
+            let (key, sched, got) = match ans.as_call() {
+                Some(("batch-mismatch", [sched, got])) => {
+                    let got = got.to_string();
+                    let key = if got.starts_with("(got (panic") {
+                        format!("panic-under-batching:{}", got.trim_start_matches("(got (panic ").trim_end_matches("))"))
+                    } else {
+                        "rows-differ-under-batching".to_string()
+                    };
+                    (key, Some(sched.clone()), got)
+                }
+                Some(("carrier-panic", [sched, class])) => {
+                    let class = class.to_string();
+                    let sched = if sched.as_atom() == Some("unbatched") { None } else { Some(sched.clone()) };
+                    (format!("query-was-not-returned:{class}"), sched, format!("panic {class}"))
+                }
+                _ => continue,
             };
-            // the same world with the single failing schedule
+            // the same world with the single failing schedule (none: the unbatched run already fails)
             let mut replay = e.request.clone();
             if let Sexp::List(v) = &mut replay {
                 if let Some(last) = v.last_mut() {
-                    *last = Sexp::call("scheds", vec![sched.clone()]);
+                    *last = Sexp::call("scheds", sched.iter().cloned().collect());
                 }
             }
             let query = e.request.as_call().and_then(|(_, a)| a.get(2)).and_then(|t| t.as_atom()).and_then(unhex).and_then(|b| String::from_utf8(b).ok());
+            let sched_text = sched.map(|s| s.to_string()).unwrap_or_else(|| "none (unbatched run)".to_string());
             out.push(OracleFailure {
                 key,
-                detail: format!("schedule {sched} | query: {} | batched run: {}", query.unwrap_or_default(), &got[..got.len().min(600)]),
+                detail: format!("schedule {sched_text} | query: {} | observed: {}", query.unwrap_or_default(), &got[..got.len().min(600)]),
                 requests: vec![replay.to_string()],
             });
         }
